@@ -5,22 +5,22 @@ HERE = os.path.dirname(os.path.dirname(os.path.abspath(__file__)))
 
 CLAIMED = {
  "C02": dict(technique="SSA dominance/guard analysis, provenance slicing and must-lockset over rbc and threshold",
-             text="Sound static decision of named structural necessary conditions of RBC agreement (no self-vouching, N-1 quorum in linear normal form, conflicting digest halts, receiver-side classification and digest, participant filter, serialised instance). The agreement argument itself is not decided.",
+             text="Sound static decision of named structural necessary conditions of RBC agreement (no self-vouching, N-1 quorum in linear normal form, conflicting digest halts, receiver-side classification and digest, participant filter, serialised instance). The agreement argument itself is not decided. Also decided: the receiver's records are permanent (no delete from the pin/reception tables or voucher sets, tables replaced only when nil, flags only set).",
              design="§4 C02"),
  "C03": dict(technique="SSA dominance/guard analysis with calling contexts, test-and-set pattern, counting-argument premises, provenance over rbc and threshold",
-             text="Sound static decision of structural necessary conditions of RBC integrity: hand-over at most once (test-and-set on the reception entry), never nil (local guard or re-checked counting premises), self vouches only on direct receipt attributed to the transport source, point-to-point pass-through, receiver-side digest, participant filter, quorum. Behaviour under concrete schedules is not decided.",
+             text="Sound static decision of structural necessary conditions of RBC integrity: hand-over at most once (test-and-set on the reception entry), never nil (local guard or re-checked counting premises), self vouches only on direct receipt attributed to the transport source, point-to-point pass-through, receiver-side digest, participant filter, quorum. Behaviour under concrete schedules is not decided. Also decided: the receiver's records are permanent (a pin removed at delivery would let a second payload of the same sender and round be handed over).",
              design="§4 C03"),
  "C04": dict(technique="table extraction from SSA/AST (ClassifyMsg switch, adapter map literals under the classifier's normalisation), writer/reader agreement per send site, context-pruned dominance guards and post-dominator control dependence of unregistered exits on rbc",
-             text="Sound static decision of the table clauses of RBC totality (distinct broadcast rounds <=127 per phase for all four backends; sender-side class constant equals receiver-side class at every BLS/PS send site) and of five structural guards (acks about own messages dropped, early acks parked, p2p pass-through, registration under the local classifier's round and class, and no exit of Receive/registerMsg that skips registration other than the enumerated drop reasons or a test of the message alone, decided by control dependence). Exactly-once delivery under every interleaving is not decided.",
+             text="Sound static decision of the table clauses of RBC totality (distinct broadcast rounds <=127 per phase for all four backends; sender-side class constant equals receiver-side class at every BLS/PS send site) and of five structural guards (acks about own messages dropped, early acks parked, p2p pass-through, registration under the local classifier's round and class, and no exit of Receive/registerMsg that skips registration other than the enumerated drop reasons or a test of the message alone, decided by control dependence). Exactly-once delivery under every interleaving is not decided. Also decided: every payload handed to Scheme.Send is built in a buffer of its own invocation (no scratch buffer shared across sends, which Send's queues would let the next message overwrite).",
              design="§4 C04"),
  "C16": dict(technique="SSA dominance of the seven authentication guards over every success return, provenance slicing of VerifyASN1 operands and lookup key, store/call ordering for signature blanking, who-may-send on the message channel",
              text="Sound static decision of the full structure of transport attribution: seven guards dominate success, key/digest/signature/lookup-key/returned-id provenance, blanking order, single attributed sender. Cryptographic primitives and TLS exporter uniqueness are trusted.",
              design="§4 C16"),
  "C19": dict(technique="table extraction from the adapters' AST and from the resolved tss-lib source (registry lists, protobuf descriptors, MessageRouting literals), SSA guards and provenance for sender/digest binding",
-             text="Sound static decision that the adapters' tables equal tss-lib's registered message types and routing classes, that broadcast rounds are distinct per phase, that classification derives from the received type URL only, that the hand-over is dominated by claimed==from, that the seat index a message is attributed to comes from a lookup that returns a seat only for the party whose key equals the transport sender's, and Sign's success by the digest comparison.",
+             text="Sound static decision that the adapters' tables equal tss-lib's registered message types and routing classes, that broadcast rounds are distinct per phase, that classification derives from the received type URL only, that the hand-over is dominated by claimed==from, that the seat index a message is attributed to comes from a lookup that returns a seat only for the party whose key equals the transport sender's, and Sign's success by the digest comparison. The digest compared is the requested one through big.Int only (no padding/truncating helper).",
              design="§4 C19"),
  "C13": dict(technique="byte-lane abstract interpretation of SSA (encoder layout vs decoder layout), lane completeness of hashed identifiers, ASN.1 marshal/unmarshal type pairing, copy completeness by linear arithmetic over lengths",
-             text="Sound static decision that both hand-written codecs agree lane by lane for every 16-bit identifier, round and digest region, that id hashing covers both bytes and that stored data/public parameters are (un)marshalled as identical struct types with id fields >= 16 bits. Completion of sessions with large ids as behaviour is not decided.",
+             text="Sound static decision that both hand-written codecs agree lane by lane for every 16-bit identifier, round and digest region, that id hashing covers both bytes and that stored data/public parameters are (un)marshalled as identical struct types with id fields >= 16 bits. Completion of sessions with large ids as behaviour is not decided. Also decided: no identifier is compared with a constant strictly inside the 16-bit range.",
              design="§4 C13"),
  "C17": dict(technique="byte-lane layout comparison writer/reader, byte-stream content of the writer per success path (segments through append / scratch buffers, copy completeness by linear arithmetic over lengths and guards), SSA dominance for the size limit, who-may-call/who-may-write for the single writer (write helpers recognised by their contract), panic reachability from the sending side, failure-arm pairing per invocation, dequeue-to-write path search",
              text="Sound static decision of frame layout agreement (type, 32-bit little-endian length, 5-byte prefix, 32-byte topic, payload), that on every success path of send the bytes written are the whole header followed by the whole payload, the size limit on the wire-sized allocation, the single writer per connection, absence of peer-induced panics on the sending side, a dequeued message is written before the next one is taken, connection reset on failed writes and no further write after a failed one. Delivery behaviour and fairness are not decided.",
@@ -32,31 +32,31 @@ CLAIMED = {
              text="Sound static decision of structural necessary conditions of clean failure: every continuation path reports on the buffered result channel, the API blocks only in a select with a ctx.Done() arm returning an error, BLS/PS waits report expiry and are honoured, the context monitor is armed and signals under the lock, every Cond.Wait parks only after a context check re-evaluated on every cycle, every explicit panic reachable from KeyGen/Sign has a recorded reason, adapter loops watch ctx.Done(). Promptness, tss-lib internals and goroutine leaks are not decided.",
              design="§4 C11"),
  "C12": dict(technique="SSA register/release pairing on all exits (same table, same key root through parameters and captured cells, deferred calls, continuation axiom), critical-section identity from must-locksets, found-arm guards, who-may-write table for Scheme fields",
-             text="Sound static decision of structural necessary conditions of residue freedom: every registration into the handler tables / dkgRunning is released on all exits of the registering function or by a deferred release armed in the API entry after the successful outcome of its own admission; refuse-and-insert is one exclusive critical section and nothing is inserted on the refused arm; dispatch only on the found arm; no per-session state stored in Scheme fields. Registrations by a continuation that outlives the API call are a documented limitation.",
+             text="Sound static decision of structural necessary conditions of residue freedom: every registration into the handler tables / dkgRunning is released on all exits of the registering function or by a deferred release armed in the API entry after the successful outcome of its own admission; refuse-and-insert is one exclusive critical section and nothing is inserted on the refused arm; dispatch only on the found arm; no per-session state stored in Scheme fields; every table key and wire topic of code reached only from Sign derives from Sign's topic parameter (sessions on different topics cannot share a slot). Registrations by a continuation that outlives the API call are a documented limitation.",
              design="§4 C12"),
  "C01": dict(technique="barrier-depth computation over closures/continuations and the channel-closed-in-continuation idiom, happens-before through closure creation sites and static callers, provenance of the second barrier's members/topic/count, structural wiring check of SilentScheme",
-             text="Sound static decision of the orchestration clauses necessary for correctness under every delivery order: protocol start at barrier depth >= 2, handlers/classifier/Init in place before the second barrier opens, share data loaded into the session's instance only after its Init, second barrier over the agreed list, counts (Threshold+1, RBC size), silent-mode wiring. The threshold algebra and byte-identity of outputs are numerical and not decided.",
+             text="Sound static decision of the orchestration clauses necessary for correctness under every delivery order: protocol start at barrier depth >= 2, handlers/classifier/Init in place before the second barrier opens, share data loaded into the session's instance only after its Init, second barrier over the agreed list, counts (Threshold+1, RBC size), silent-mode wiring. The threshold algebra and byte-identity of outputs are numerical and not decided. Also decided: aggregation loops over a re-sliced slice do not index the original slice with their loop index (the one loop shape that silently breaks Lagrange products from three points on).",
              design="§4 C01"),
  "C06": dict(technique="typed backward walk (qualifier inference) over 16-bit carriers seeded by the named id types and closure-parameter roles; provenance slicing of point-to-point destinations; dominance guards in the duplicate check",
-             text="Sound static decision of the full structure of id translation: party ids at the backend boundary (Init, OnMsg, factories), node ids at the synchroniser, no relabelling conversions, session-dependent point-to-point destination, party->node maps keyed by a value computed from the node stored, duplicate party refused, sorted result, Init's list from the checked translation.",
+             text="Sound static decision of the full structure of id translation: party ids at the backend boundary (Init, OnMsg, factories), node ids at the synchroniser, no relabelling conversions, session-dependent point-to-point destination, party->node maps keyed by a value computed from the node stored, duplicate party refused, sorted result, Init's list from the checked translation. Also decided: the node->party table is filled unconditionally for every configured node.",
              design="§4 C06"),
  "C07": dict(technique="SSA path/dominance analysis of continuation-iff-success for both synchronisers, guards on tag ownership, linear/phi analysis of view and confirmation counting, LoadOrStore arm guard, sort-before-use, tag table provenance",
              text="Sound static decision of structural necessary conditions of membership synchronisation: continuation iff nil return, tag must belong to the authenticated sender, exact-size and identical-list counting guards, one confirmation per peer, sorted output, complete tag table. Agreement under lying members/interleavings and timely completion are not decided.",
              design="§4 C07"),
  "C09": dict(technique="freshness (ownership) analysis of mathlib mutator receivers over SSA, store-target analysis on verification paths, dominance of share uses by the proof check, provenance of Fiat-Shamir oracle operands, error-propagation analysis",
-             text="Sound static decision of structural necessary conditions of 'verification rejects altered input and is side-effect free': mutators only on fresh objects, no stores into inputs, proof checked before the share is used, every group-element operand of every Fiat-Shamir oracle (found by role, also through parameter objects) bound by the challenge and every equation fed by it, every inner verdict/parse error returned, BLS aggregation through the party->point table. Soundness of the pairing equations is algebra and not decided.",
+             text="Sound static decision of structural necessary conditions of 'verification rejects altered input and is side-effect free': mutators only on fresh objects, no stores into inputs, proof checked before the share is used, every group-element operand of every Fiat-Shamir oracle (found by role, also through parameter objects) bound by the challenge and every equation fed by it, every inner verdict/parse error returned, every ciphertext vector of a blinded request read element-wise by a per-index equation of the request proof whose failure is returned, BLS aggregation through the party->point table. Soundness of the pairing equations is algebra and not decided.",
              design="§4 C09"),
  "C14": dict(technique="must-lockset analysis with critical-section identity (decide-and-store, mark+snapshot+delete, mark+sweep), calling contexts, provenance of the drained snapshot, ordering of the drain against the started mark",
-             text="Sound static decision of the atomicity and ordering conditions necessary for exactly-once, in-order hand-off across the first-send race: decision and store in one exclusive section, Send's mark/snapshot/delete in one section, mark and sweep in one section, drain of exactly the snapshot after the mark. The remaining ordering condition (drain vs. direct forwarding) is violated by the current design and recorded as a known finding. Interleavings are not enumerated.",
+             text="Sound static decision of the atomicity and ordering conditions necessary for exactly-once, in-order hand-off across the first-send race: decision and store in one exclusive section, Send's mark/snapshot/delete in one section, mark and sweep in one section, drain of exactly the snapshot after the mark, the started mark stamped with the epoch counter as just read (so the collection ending the same Send cannot sweep it). The remaining ordering condition (drain vs. direct forwarding) is violated by the current design and recorded as a known finding. Interleavings are not enumerated.",
              design="§4 C14"),
  "C15": dict(technique="SSA dominance of limit guards with calling contexts, critical-section identity for counter/append and bookkeeping release, construction-site check for the logger, clock-domain inference over provenance slices, direction check of the GC guard",
-             text="Sound static decision of structural necessary conditions of boundedness and resource release: limits dominate appends and bookkeeping creation, shedding cannot fail, bookkeeping is entered only together with a buffered message, every buffered message is entered into it, and it is released with every buffer deletion, no comparison mixes clock domains, the GC guard cannot disable collection. Quantitative bounds under concurrency are not decided.",
+             text="Sound static decision of structural necessary conditions of boundedness and resource release: limits dominate appends and bookkeeping creation, shedding cannot fail, bookkeeping is entered only together with a buffered message, every buffered message is entered into it, and it is released with every buffer deletion, no comparison mixes clock domains, the GC guard cannot disable collection, lastGC and the started marks are set to the epoch as just read. Quantitative bounds under concurrency are not decided.",
              design="§4 C15"),
  "C20": dict(technique="interprocedural must-lockset analysis (mutex-field abstraction, defer-aware, synchronous-callback inheritance) against a frozen guarded-by table with per-function exemptions justified by publication-ordering rules; atomic-only access; type classification of synchroniser state",
              text="Sound static decision that every access to the guarded fields of Scheme, TBLS, TPS, Box and storedMessages holds its lock in sufficient mode, that backend Init/SetShareData happen before the handler is published, that epoch counters are accessed only atomically and that the synchroniser's shared state is sync.Map/channels. Memory outside these types is not decided.",
              design="§4 C20"),
  "C10": dict(technique="reachability closure from the network entry points (static calls, closures, VTA call graph, consumers of stored state), enumeration of panic-capable constructs using the Go compiler's prove pass as bounds oracle, discharge by dominating length guards with calling contexts and length arithmetic, structural checks (sync.Map value types, map/field initialisation and no reset to nil, allocation bounds) and a frozen reason table",
-             text="Sound static decision that every panic-capable construct (unproven bounds checks, unchecked assertions, explicit panics, nil map stores, nil func/interface field calls, wire-sized allocations, divisions, exit calls, dispatcher-path sends) in the closure reachable from the network is discharged by a dominating guard or a recorded reason. Hangs in general, dependency internals and CPU exhaustion are not decided.",
+             text="Sound static decision that every panic-capable construct (unproven bounds checks, unchecked assertions, explicit panics, nil map stores, nil func/interface field calls, wire-sized allocations, divisions, exit calls, dispatcher-path sends) in the closure reachable from the network is discharged by a dominating guard or a recorded reason. Hangs in general, dependency internals and CPU exhaustion are not decided. The premise of the frozen reason for the synchroniser's blocking response send (channel capacity = len(Membership)-1) is decided on every run.",
              design="§4 C10"),
 }
 NOT_APPLICABLE = {
